@@ -464,6 +464,10 @@ def _reduction_patterns(prog: Program, strategy: int, nvars: int, refine: bool):
         ta.ext_stubs["scipy.optimize.linprog"] = lambda ta_, pos, kw: DictV({("str", "status"): num(0), ("str", "slack"): ("opaque", "slack"), ("str", "fun"): ("opaque", "fun")})
         ta.ext_stubs["numpy.isclose"] = lambda ta_, pos, kw: ("opaque", "mask")
         ta.ext_stubs["numpy.where"] = lambda ta_, pos, kw, nrows=len(rows): TupV([ListV([num(k) for k in range(nrows)])])
+        ta.ext_stubs["numpy.nonzero"] = ta.ext_stubs["numpy.where"]
+        ta.ext_stubs["numpy.flatnonzero"] = lambda ta_, pos, kw, nrows=len(rows): ListV([num(k) for k in range(nrows)])
+        ta.ext_stubs["numpy.isclose"] = lambda ta_, pos, kw: ("opaque", "mask")
+        ta.ext_stubs["numpy.abs"] = lambda ta_, pos, kw: pos[0] if pos and isinstance(pos[0], tuple) and pos[0][:1] == ("opaque",) else (_ for _ in ()).throw(AnalysisError("numpy.abs of a symbolic value"))
         if strategy == 1:
             ta.stubs["PolyhedralTermList._get_kaykobad_context"] = lambda ta_, pos, kw, rows=rows, forb=forb: TupV([ListV(list(rows)), ListV(list(forb))])
         desc = "term %s, rows %s, signs %s, refine=%s" % (_show_term(T), [_show_term(r) for r in rows], {k: ("+" if v > 0 else "-") for k, v in signs.items()}, refine)
